@@ -303,9 +303,18 @@ def g3_struct_names(r, lib, R):
         srcs = _value_sources(b, strip(a, mir.VALUE_PRESERVING))
         calls = [s for s in srcs if s[0] == "call"]
         consts = [s for s in srcs if s[0] == "const"]
-        okp = all(s[1].endswith("Element::expand_name") for s in calls) and calls and all(s[1] == "String" for s in consts) and len(calls) + len(consts) == len(srcs)
+        # the producer is found by role: a method of Element taking the ancestor trace (a list of Strings) and the hint
+        # table (a map to usize) and returning the name
+        def is_producer(path):
+            f = lib.fns.get(path) or next((v for k2, v in lib.fns.items() if mir._norm(k2) == path), {})
+            ins = f.get("inputs", [])
+            return f.get("impl_self", {}).get("adt") == "element::Element" and f.get("output", {}).get("adt") == "std::string::String" and \
+                any(t.get("adt") in ("std::collections::HashMap", "std::collections::BTreeMap") and "usize" in t.get("s", "") for t in ins) and \
+                any("std::string::String" in t.get("s", "") and ("[" in t.get("s", "") or "Vec<" in t.get("s", "")) for t in ins)
+        okp = all(is_producer(s[1]) for s in calls) and len({s[1] for s in calls}) == 1 and bool(calls) and all(s[1] == "String" for s in consts) and \
+            len(calls) + len(consts) == len(srcs)
         r.ob("G3.struct-name-producer", "%s: %s slot %r" % (b.name, what, e.template), okp,
-             "struct identifier = expand_name(element, trace, hints)%s" % (" or the literal String for text-only children" if consts else "") if okp else
+             "struct identifier = <name producer>(element, trace, hints)%s" % (" or the literal String for text-only children" if consts else "") if okp else
              "struct identifier slot filled by %s" % [term_s(s)[:40] for s in srcs], site=e.site, key="G3|producer|%s|%s" % (what, e.template))
         for s in calls:
             producers.add(s[1])
@@ -357,9 +366,11 @@ def struct_name_path(r, lib, producers):
     """functions on the struct-name path and the guard calls found there"""
     # guards on the struct-name path: everything reachable from the producers and from the trace elements' producer
     path_fns = set()
-    for p in list(producers) + ["formatted_name", "compute_name_hints"]:
+    hint_builders = [p for p, f in lib.fns.items() if f.get("output", {}).get("adt") in ("std::collections::HashMap", "std::collections::BTreeMap") and
+                     "usize" in f.get("output", {}).get("s", "") and p in lib.bodies]      # the function(s) building the hint table, whatever their name
+    for p in list(producers) + ["formatted_name"] + hint_builders:
         for bd in lib.real_bodies():
-            if mir._norm(bd.name).endswith(p.split("::")[-1]) or mir._norm(bd.name) == p:
+            if mir._norm(bd.name).endswith(p.split("::")[-1]) or mir._norm(bd.name) == p or bd.name == p:
                 path_fns |= lib.reachable_from([bd.name])
     reserved_calls = []
     uniq_guards = []
